@@ -513,6 +513,8 @@ class AbstractExcelInPython(ABC):
         return when_error() if callable(when_error) else when_error
 
     def _left(self, text, num_chars):
+        # количество символов - целое число, даже если получено делением (2.0 -> 2)
+        num_chars = int(num_chars) if isinstance(num_chars, float) else num_chars
         if num_chars is None:
             # по умолчанию берётся один символ (у пустого текста - ни одного)
             num_chars = 1
@@ -525,6 +527,9 @@ class AbstractExcelInPython(ABC):
         return text[0:num_chars]
 
     def _mid(self, text, start_num, num_chars):
+        # позиция и количество символов - целые числа, даже если получены делением (2.0 -> 2)
+        start_num = int(start_num) if isinstance(start_num, float) else start_num
+        num_chars = int(num_chars) if isinstance(num_chars, float) else num_chars
         if start_num < 1:
             return '#NUM!'
         if num_chars < 0:
@@ -679,6 +684,8 @@ class AbstractExcelInPython(ABC):
         return self._sum(sum_range)
 
     def _right(self, text, num_chars):
+        # количество символов - целое число, даже если получено делением (2.0 -> 2)
+        num_chars = int(num_chars) if isinstance(num_chars, float) else num_chars
         if num_chars is None:
             # по умолчанию берётся один символ (у пустого текста - ни одного)
             num_chars = 1
